@@ -91,6 +91,38 @@ func checkC15(p *ana.Prog, r *ana.Result) {
 	mb := match.Block().Succs[matchSucc]
 	swap, shrink, assign := false, false, false
 	var spsSlice ssa.Value
+	// another read of ps[j] in the match block, in front of the store that overwrites the slot
+	isCandLoad := func(v ssa.Value) bool {
+		ld, ok := v.(*ssa.UnOp)
+		if !ok || ld.Op != token.MUL || ld.Block() != mb {
+			return false
+		}
+		ia, ok := ld.X.(*ssa.IndexAddr)
+		if !ok || !isPsLoad(ia.X) || ia.Index != jIdx {
+			return false
+		}
+		for _, in := range mb.Instrs {
+			if in == ssa.Instruction(ld) {
+				return true
+			}
+			if st, ok := in.(*ssa.Store); ok {
+				if ia2, ok := st.Addr.(*ssa.IndexAddr); ok && isPsLoad(ia2.X) {
+					return false // the slot was overwritten before this read
+				}
+			}
+		}
+		return false
+	}
+	var shrunk ssa.Value // ps[:len(ps)-1] computed in the match block
+	for _, in := range mb.Instrs {
+		if sl, ok := in.(*ssa.Slice); ok && sl.Low == nil && isPsLoad(sl.X) {
+			if bo, ok := sl.High.(*ssa.BinOp); ok && bo.Op == token.SUB && isLenOf(bo.X) {
+				if k, _ := ana.ConstInt(bo.Y); k == 1 {
+					shrunk = sl
+				}
+			}
+		}
+	}
 	for _, in := range mb.Instrs {
 		st, ok := in.(*ssa.Store)
 		if !ok {
@@ -108,7 +140,7 @@ func checkC15(p *ana.Prog, r *ana.Result) {
 						}
 					}
 				}
-			} else if st.Val == elem {
+			} else if st.Val == elem || isCandLoad(st.Val) {
 				assign = true
 				spsSlice = ia.X
 			}
@@ -120,6 +152,57 @@ func checkC15(p *ana.Prog, r *ana.Result) {
 						shrink = true
 					}
 				}
+			}
+		}
+	}
+	if !shrink && shrunk != nil && psAlloc != nil {
+		// the shortened list may be stored at a distance (the removal in a helper that returns the
+		// rest): a store of it - possibly merged with the unchanged list for "not found" - to the
+		// candidate variable, passed on every path from the match to the next client
+		var stores []ssa.Instruction
+		ana.Instrs(fn, func(in ssa.Instruction) {
+			st, ok := in.(*ssa.Store)
+			if !ok || st.Addr != ssa.Value(psAlloc) {
+				return
+			}
+			good := st.Val == shrunk
+			if ph, isPhi := st.Val.(*ssa.Phi); isPhi {
+				n := 0
+				good = true
+				for _, e := range ph.Edges {
+					switch {
+					case e == shrunk:
+						n++
+					case isPsLoad(e):
+					default:
+						good = false
+					}
+				}
+				good = good && n > 0
+			}
+			if good {
+				stores = append(stores, in)
+			}
+		})
+		if len(stores) > 0 {
+			isStore := func(in ssa.Instruction) bool {
+				for _, a := range stores {
+					if a == in {
+						return true
+					}
+				}
+				return false
+			}
+			s := &ana.Search{Fn: fn, Stop: isStore, Target: func(in ssa.Instruction) bool {
+				c, ok := in.(*ssa.Call)
+				if !ok {
+					return false
+				}
+				n := ana.CalleeName(&c.Call)
+				return n == ana.Q("(*core/client.SCIONClient).InterleavedModePath") || n == ana.Q("base/crypto.Sample")
+			}}
+			if found, _ := s.Run(mb.Instrs[0]); !found {
+				shrink = true
 			}
 		}
 	}
